@@ -102,6 +102,67 @@ theorem sandboxOp_guarded (fl f : Nat) (h : fl &&& capSandbox ≠ 0) : sandboxOp
   have : (fl &&& capSandbox != 0) = true := bne_iff_ne.mpr h
   rw [if_pos this]
 
+theorem subMask_or_right (f x : Nat) : subMask x (f ||| x) = true := by
+  rw [Nat.or_comm]; exact subMask_or_left x f
+
+/-- corelib.c `janet_core_sandbox`: the mask handed to `janet_sandbox` contains the accumulator and the table entry of
+    every keyword given -/
+theorem sandboxMask_spec (tbl : List (String × Nat)) : ∀ (kws : List String) (acc m : Nat), sandboxMask tbl acc kws = some m →
+    subMask acc m = true ∧ ∀ k ∈ kws, ∃ mk, kwLookup tbl k = some mk ∧ subMask mk m = true := by
+  intro kws
+  induction kws with
+  | nil =>
+    intro acc m h
+    simp only [sandboxMask] at h
+    cases h
+    exact ⟨subMask_refl acc, fun k hk => by cases hk⟩
+  | cons k ks ih =>
+    intro acc m h
+    simp only [sandboxMask] at h
+    cases hk : kwLookup tbl k with
+    | none => rw [hk] at h; cases h
+    | some mk =>
+      rw [hk] at h
+      obtain ⟨h1, h2⟩ := ih (acc ||| mk) m h
+      refine ⟨subMask_trans (subMask_or_left acc mk) h1, ?_⟩
+      intro k' hk'
+      cases hk' with
+      | head => exact ⟨mk, hk, subMask_trans (subMask_or_right acc mk) h1⟩
+      | tail _ ht => exact h2 k' ht
+
+/-- ★ `(sandbox :k1 :k2 …)` that returns has disabled - for every keyword given - every capability the table lists for it,
+    and has cleared nothing; it is an instance of `sandboxOp` (so `flags_monotone` etc. apply to it). -/
+theorem sandboxCfun_disables (tbl : List (String × Nat)) (fl fl' : Nat) (kws : List String)
+    (h : sandboxCfun tbl fl kws = some fl') :
+    subMask fl fl' = true ∧ (∀ k ∈ kws, ∃ mk, kwLookup tbl k = some mk ∧ subMask mk fl' = true) ∧
+    ∃ m, sandboxMask tbl 0 kws = some m ∧ sandboxOp fl m = some fl' := by
+  unfold sandboxCfun at h
+  cases hm : sandboxMask tbl 0 kws with
+  | none => rw [hm] at h; cases h
+  | some m =>
+    rw [hm] at h
+    replace h : sandboxOp fl m = some fl' := h
+    have hs := (sandboxMask_spec tbl kws 0 m hm).2
+    have hfl : fl' = fl ||| m := by
+      unfold sandboxOp at h
+      by_cases hc : (fl &&& capSandbox != 0) = true
+      · rw [if_pos hc] at h; cases h
+      · rw [if_neg hc] at h
+        exact (Option.some.inj h).symm
+    refine ⟨sandboxOp_mono h, ?_, m, rfl, h⟩
+    intro k hk
+    obtain ⟨mk, h1, h2⟩ := hs k hk
+    exact ⟨mk, h1, subMask_trans h2 (by rw [hfl]; exact subMask_or_right fl m)⟩
+
+/-- an unknown keyword, or a disabled `sandbox` capability: panic, nothing changes -/
+theorem sandboxCfun_unknown (tbl : List (String × Nat)) (fl : Nat) (kws : List String) (k : String) (hk : k ∈ kws)
+    (hu : kwLookup tbl k = none) : sandboxCfun tbl fl kws = none := by
+  cases h : sandboxCfun tbl fl kws with
+  | none => rfl
+  | some fl' =>
+    obtain ⟨mk, h1, _⟩ := (sandboxCfun_disables tbl fl fl' kws h).2.1 k hk
+    rw [hu] at h1; cases h1
+
 theorem step_length_le (s : Sys) (o : SysOp) : s.length ≤ (s.step o).length := by
   cases o with
   | sandbox tid f =>
@@ -342,6 +403,21 @@ theorem ex_inv (h : certOK need G C = true) {b : Bool} {n F md n' F' md' : Nat} 
     obtain ⟨a, b', c'⟩ := ih rfl hks
     have hf := succ_fn hok hs
     exact ⟨a, by rw [b', hf], fun hpure => c' (by rw [hf]; exact hpure)⟩
+  | @modeGuard n F md s n' F' md' v eq hlt hop hg hs _ ih =>
+    intro _ hk
+    have hok := nodeOK_of_lt h hlt
+    obtain ⟨c, hc, hm, hh⟩ := hk
+    have hp := (nodeOK_parts hok).2.2.2 c hc
+    unfold caseOK at hp
+    rw [hop] at hp
+    simp only [] at hp
+    rw [hm, hg] at hp
+    simp only [Bool.not_true, Bool.false_or] at hp
+    rw [List.all_eq_true] at hp
+    have hks : inv (C.k s) md F := inv_of_cover (hp s hs) (fun g' hg' => holds_imp hh hg')
+    obtain ⟨a, b', c'⟩ := ih rfl hks
+    have hf := succ_fn hok hs
+    exact ⟨a, by rw [b', hf], fun hpure => c' (by rw [hf]; exact hpure)⟩
   | @havoc n F md F1 s n' F' md' hlt hop _ hs _ _ ih2 =>
     intro _ hk
     have hok := nodeOK_of_lt h hlt
@@ -479,6 +555,7 @@ theorem ex_mono {G : Graph} {b : Bool} {n F md n' F' md' : Nat} (hr : Ex G b n F
   | modeOr _ _ _ _ ih => exact ih
   | modeUpd _ _ _ _ ih => exact ih
   | assertMd _ _ _ _ _ ih => exact ih
+  | modeGuard _ _ _ _ _ ih => exact ih
   | havoc _ _ _ _ _ ih1 ih2 => exact subMask_trans ih1 ih2
   | call _ _ _ _ _ _ _ ih1 ih2 => exact subMask_trans ih1 ih2
   | idone F => exact subMask_refl F
@@ -545,6 +622,7 @@ theorem ex_entries_mono {G : Graph} {es : List Nat} (hsub : ∀ f ∈ es, f ∈ 
   | modeOr hlt hop hs _ ih => exact .modeOr hlt hop hs ih
   | modeUpd hlt hop hs _ ih => exact .modeUpd hlt hop hs ih
   | assertMd hlt hop hp hs _ ih => exact .assertMd hlt hop hp hs ih
+  | modeGuard hlt hop hg hs _ ih => exact .modeGuard hlt hop hg hs ih
   | havoc hlt hop _ hs _ ih1 ih2 => exact .havoc hlt hop ih1 hs ih2
   | call hlt hop _ hrlt hret hs _ ih1 ih2 => exact .call hlt hop ih1 hrlt hret hs ih2
   | idone F => exact .idone F
@@ -602,6 +680,27 @@ example : certOK need ⟨3, fun n => #[⟨0, .modeOr 2, [1]⟩, ⟨0, .libc "os_
 example : certOK need ⟨4, fun n => #[⟨0, .assert 96, [1]⟩, ⟨0, .modeOr 2, [2]⟩, ⟨0, .libc "os_open" "open64", [3]⟩, ⟨0, .ret, []⟩].getD n ⟨0, .nop, []⟩,
       fun _ => 0, [0]⟩
     ⟨fun n => #[[(0, [])], [(0, [32, 64])], [(2, [32, 64])], [(2, [32, 64])]].getD n [], fun _ => [], fun _ => true⟩ = true := by decide
+/-- collected mask: `x = 0; x |= FS_WRITE (on the :c path); x = FS_READ (the seeded `=` for `|=`); assert(x); open(O_CREAT)`
+    is rejected (the certificate can only know fs-read at the open, mode O_CREAT needs fs-write); with `|=` it is accepted -/
+example : certOK need ⟨6, fun n => #[⟨0, .modeUpd 65535 0, [1]⟩, ⟨0, .modeOr 64, [2]⟩, ⟨0, .modeOr (32 <<< 16), [3]⟩, ⟨0, .modeUpd 65535 (64 <<< 16), [4]⟩,
+      ⟨0, .assertMd 16, [5]⟩, ⟨0, .libc "os_open" "open64", []⟩].getD n ⟨0, .nop, []⟩, fun _ => 0, [0]⟩
+    ⟨fun n => #[[(0, [])], [(0, [])], [(64, [])], [(64 + 32 <<< 16, [])], [(64 + 64 <<< 16, [])], [(64 + 64 <<< 16, [64])]].getD n [],
+     fun _ => [], fun _ => true⟩ = false := by decide
+example : certOK need ⟨6, fun n => #[⟨0, .modeUpd 65535 0, [1]⟩, ⟨0, .modeOr 64, [2]⟩, ⟨0, .modeOr (32 <<< 16), [3]⟩, ⟨0, .modeOr (64 <<< 16), [4]⟩,
+      ⟨0, .assertMd 16, [5]⟩, ⟨0, .libc "os_open" "open64", []⟩].getD n ⟨0, .nop, []⟩, fun _ => 0, [0]⟩
+    ⟨fun n => #[[(0, [])], [(0, [])], [(64, [])], [(64 + 32 <<< 16, [])], [(64 + 96 <<< 16, [])], [(64 + 96 <<< 16, [32, 64])]].getD n [],
+     fun _ => [], fun _ => true⟩ = true := by decide
+/-- helper keyed by a constant argument: `f1(passive)` asserts `passive ? LISTEN : CONNECT` and resolves; called with 1 from an
+    entry that then listens: accepted; the same helper called with 0 is rejected at `listen` -/
+def exH (m0 : Nat) : Graph := ⟨9, fun n => #[⟨0, .call 1 m0, [1]⟩, ⟨0, .libc "f0" "listen", [2]⟩, ⟨0, .ret, []⟩,
+      ⟨1, .nop, [4, 6]⟩, ⟨1, .modeGuard 0 false, [5]⟩, ⟨1, .assert 8, [8]⟩, ⟨1, .modeGuard 0 true, [7]⟩, ⟨1, .assert 4, [8]⟩,
+      ⟨1, .ret, []⟩].getD n ⟨0, .nop, []⟩, fun f => #[0, 3].getD f 0, [0]⟩
+example : certOK need (exH 1) ⟨fun n => #[[(0, [])], [(0, [8])], [(0, [8])], [(1, [])], [(1, [])], [(1, [])], [(1, [])], [], [(1, [8])]].getD n [],
+    fun f => #[[], [8]].getD f [], fun _ => true⟩ = true := by decide
+example : certOK need (exH 0) ⟨fun n => #[[(0, [])], [(0, [4])], [(0, [4])], [(0, [])], [(0, [])], [], [(0, [])], [(0, [])], [(0, [4])]].getD n [],
+    fun f => #[[], [4]].getD f [], fun _ => true⟩ = false := by decide
 example : sandboxOp 0 96 = some 96 ∧ sandboxOp 1 96 = none := by decide
+example : sandboxCfun keywordTable 64 ["fs-write", "net"] = some (64 + 32 + 12) ∧ sandboxCfun keywordTable 0 ["fs", "bogus"] = none ∧
+    sandboxCfun keywordTable 1 ["fs"] = none := by decide
 
 end JanetModel.Sandbox.Sound
